@@ -51,7 +51,7 @@ func (s *HistoWriter) Close() {
 }
 
 func (s *HistoWriter) WriteForLine(line int, key string, val int64) {
-	if line > len(s.items) {
+	if line >= len(s.items) {
 		return
 	}
 	needsFullRefresh := false
